@@ -48,8 +48,8 @@ def run(R):
     R.assume('the SQL of _compute_fair_share is not executed: self.db is a fake yielding one record per user with the '
              'symbolic running_cores_mcpu / ready_cores_mcpu (aggregation is C01/C10\'s subject)',
              'running and ready mcpu are non-negative integers (they are sums of non-negative counters)',
-             'user names are the fixed distinct strings u0..u(N-1); records arrive in that order; all orderings of the '
-             'running cores are covered by one CrossHair condition per permutation',
+             'user names are the fixed distinct strings u0..u(N-1); records arrive in that order; one CrossHair condition per '
+             'ordering of the running cores (and, for N=3, of the totals), ties broken by user index, so the conditions partition the inputs',
              'CrossHair 0.0.110 path exploration is exhaustive when it reports "Confirmed over all paths"',
              'Python int/int true division is the correctly rounded quotient (= fp.div RNE of the exact conversions for '
              'operands < 2^53); int(float) truncates (fp.to_sbv RTZ)')
@@ -80,7 +80,7 @@ def run(R):
         rv, rmsg, rdt = res[f'{gm}.reach{n}_{s}']
         reach = rv == 'refuted' and 'Error' not in rmsg
         v, msg, dt = res[f'{gm}.check{n}_{s}']
-        order = '<='.join(f'r{i}' for i in perm) + ('' if tperm is None else '; ' + '<='.join(f't{i}' for i in tperm))
+        order = '<'.join(f'r{i}' for i in perm) + ('' if tperm is None else '; ' + '<'.join(f't{i}' for i in tperm))
         name = f'_compute_fair_share N={n} [{order}]: water-filling clauses A-E'
         if v == 'confirmed':
             good = reach and lemmas_ok
